@@ -472,7 +472,13 @@ func c15InsJSON(t *fw.T) {
 		ends[i] = starts[i] + len(toks[i].Text)
 	}
 	for _, at := range c15Points(starts, ends, len(doc)) {
-		for _, ins := range c15Illegal {
+		chars := c15Illegal
+		if at < len(doc) && strings.IndexByte("\"[{tfn", doc[at]) >= 0 {
+			// a minus sign that no digit follows is an illegal character too (in front of a string, a container or a literal name)
+			chars = append(append([]string{}, c15Illegal...), "-")
+			t.Count("json.insertions.minus", 1)
+		}
+		for _, ins := range chars {
 			mod := c15Insert(doc, at, ins)
 			a := at
 			cs.At, cs.Insert = &a, ins
